@@ -77,6 +77,17 @@ def check(ctx):
             srcs.append((k, mutate(r, s)))
     for k, s in base[: (10 if q else 100)]:
         srcs.append((k, s + r.choice(JUNK)))
+    # every prefix of short sources that are dense in token kinds (the text may end inside any token: a DPI name, a based
+    # number, a string, a system task, an escaped identifier, an attribute)
+    for t in ["module m; import \"DPI-C\" pure function int fu(input int a); export \"DPI-C\" task c_name; endmodule\n",
+              "module m; wire [3:0] w = 4'hF; initial $display(\"s\", \\esc , 1.5e3, `__LINE__); (* a = 1 *) reg r; endmodule\n",
+              "package p; typedef enum {A, B} e_t; import \"DPI\" context task tk(); endpackage\nclass c; extern function void f(); endclass\n"]:
+        tb = t.encode("utf-8")
+        for n in range(1, len(tb)):
+            try:
+                srcs.append(("sv", tb[:n].decode("utf-8")))
+            except UnicodeDecodeError:
+                pass
     cases, meta = [], {}
     for i, (k, s) in enumerate(srcs):
         c = Case("i%d" % i)
